@@ -203,7 +203,7 @@ class PooledAdapter(Adapter):
     components = SCHED_COMPONENTS
     RUNS = {"quick": 1500, "thorough": 40000}
     SELFTEST = {"quick": 6, "thorough": 16}
-    required_probes = ("pooled_runs_engaged", "engaged_via_flag", "engaged_via_threshold", "strategy_uniform",
+    required_probes = ("pooled_runs_engaged", "strategy_uniform",
                        "strategy_pct", "strategy_targeted", "strategy_rtc", "strategy_burst", "strategy_lockstep", "switches_with_2+_tasks_in_flight",
                        "probe_poolsize_1", "cube_ccube", "cube_xcube")
     assumptions = [
